@@ -411,6 +411,14 @@ class NP:
         return _np.where(c, a, b)
     mgrid = __import__("vfw.models.voxels", fromlist=["MGrid"]).MGrid()
 
+    def real(self, x):
+        if type(x).__name__ == "FilteredMap":
+            from .voxels import FilteredMap
+            return FilteredMap(x.source, x.gains, real=True)
+        if _has_sym(x):
+            return x
+        return _np.real(x)
+
     def amin(self, x, **k):
         if _has_sym(x):
             a = obj(x).ravel()
